@@ -59,7 +59,11 @@ class LKJPrior(LKJCholeskyFactorPrior):
         if not _is_valid_correlation_matrix(X):
             raise ValueError("Input is not a valid correlation matrix")
         X_cholesky = psd_safe_cholesky(X, upper=False)
-        return super().log_prob(X_cholesky)
+        # LKJCholesky is a density over Cholesky factors: it contains the Jacobian prod_{i=2}^n L_ii^(n-i) of L -> L L^T,
+        # which is not part of the density |X|^(eta - 1) of the correlation matrix itself
+        diag = X_cholesky.diagonal(dim1=-1, dim2=-2)[..., 1:]
+        order = torch.arange(self.n - 2, -1, -1, dtype=diag.dtype, device=diag.device)
+        return super().log_prob(X_cholesky) - (order * diag.log()).sum(-1)
 
     def sample(self, sample_shape=torch.Size()):
         R = super().sample(sample_shape=sample_shape)
